@@ -254,12 +254,21 @@ type Epoch struct {
 	KeptData       bool // ... that kept the data directory
 }
 
+// FilterQueries are the status filters every probe asks in addition to the unfiltered questions.
+var FilterQueries = []string{"silenced=false", "inhibited=false", "active=false", "silenced=false&active=false"}
+
 // Probe is one observation of the API state.
 type Probe struct {
 	T        time.Time
 	Alerts   []sim.GettableAlert
 	Groups   []sim.AlertGroup
 	Silences []sim.GettableSilence
+	// the same question asked with status filters (silenced=false, inhibited=false, active=false and one
+	// combination), on /alerts and - flattened - on /alerts/groups; Alerts2 is a second unfiltered
+	// response taken after them
+	Filtered       map[string][]sim.GettableAlert
+	FilteredGroups map[string][]sim.GettableAlert
+	Alerts2        []sim.GettableAlert
 	// internal view of the dispatcher's group maps (hook H4)
 	Internal    []dispatch.VerifGroup
 	PerRouteLen []int64
@@ -455,6 +464,20 @@ func RunWith(s *Scenario, dir string, custom sim.Script, beforeStop func(*sim.In
 		_, p.Alerts = in.GetAlerts("")
 		_, p.Groups = in.GetGroups("")
 		_, p.Silences = in.GetSilences()
+		p.Filtered, p.FilteredGroups = map[string][]sim.GettableAlert{}, map[string][]sim.GettableAlert{}
+		for _, q := range FilterQueries {
+			if c, as := in.GetAlerts(q); c == 200 {
+				p.Filtered[q] = as
+			}
+			if c, gs := in.GetGroups(q); c == 200 {
+				flat := []sim.GettableAlert{}
+				for _, g := range gs {
+					flat = append(flat, g.Alerts...)
+				}
+				p.FilteredGroups[q] = flat
+			}
+		}
+		_, p.Alerts2 = in.GetAlerts("")
 		if d := in.VI.Dispatcher(); d != nil {
 			p.Internal, p.PerRouteLen, p.TotalGroups = d.VerifGroups()
 		}
